@@ -8,6 +8,7 @@ import extract
 from facts import Facts
 import r9
 F = Facts(extract.extract()[0])
+json.dump(sorted(k for k, f in F.fns.items() if f["kind"] != "Closure"), open(os.path.join(V, "baseline", "functions.json"), "w"), indent=0)
 props = {json.loads(l)["id"]: json.loads(l) for l in open(os.path.join(V, "properties.jsonl"))}
 claimed = [p for p in sorted(props) if os.path.exists(os.path.join(V, "rules", p + ".py"))]
 named_by = {p: r9.scope(F, props[p], want_named=True)[1] for p in claimed}
